@@ -2279,6 +2279,35 @@ func sharedConfigRule(p *chk.Prog, r *chk.Report) {
 					if len(st.Args) > 0 && through(f, st.Args[0]) {
 						nSites++
 						x.Fail("sort@"+f.Name()+":"+types.ExprString(st.Args[0]), st.Pos(), "a slice of the shared configuration is reordered in place outside internal/config")
+					} else if len(st.Args) > 0 {
+						// ... or through a local that is such a slice under another name: a plain copy of it, a reslice,
+						// or append(<configuration slice>, more...) - which shares the configuration's backing array
+						// for the elements it already had (reordering them reorders the configuration)
+						if id, isId := ast.Unparen(st.Args[0]).(*ast.Ident); isId {
+							for _, d := range assignsTo(f, f.ObjOf(id)) {
+								as, isAs := d.(*ast.AssignStmt)
+								if !isAs || len(as.Lhs) != len(as.Rhs) {
+									continue
+								}
+								for i, l := range as.Lhs {
+									if f.ObjOf(l) != f.ObjOf(id) {
+										continue
+									}
+									src := ast.Unparen(as.Rhs[i])
+									if c, isCall := src.(*ast.CallExpr); isCall && len(c.Args) > 0 {
+										if fid, isF := ast.Unparen(c.Fun).(*ast.Ident); isF && fid.Name == "append" {
+											if _, isB := f.Info().Uses[fid].(*types.Builtin); isB {
+												src = ast.Unparen(c.Args[0])
+											}
+										}
+									}
+									if through(f, src) {
+										nSites++
+										x.Fail("sort-alias@"+f.Name()+":"+types.ExprString(st.Args[0]), st.Pos(), "a slice that shares its backing array with a slice of the configuration ("+types.ExprString(src)+") is reordered in place outside internal/config: the configuration's own order changes under the reconcilers' comparison and under every other reader")
+									}
+								}
+							}
+						}
 					}
 				}
 			}
@@ -2331,6 +2360,22 @@ func readoptBeforeExitRule(p *chk.Prog, r *chk.Report) {
 		x.Check("converge:return-after-readopt-or-clear", rt.Pos(), ok, "", "convergeBalancer can return for a Service whose status records addresses before re-adopting them (Assign) and without clearing the record: after a restart the allocator does not know the address and gives it to another Service")
 	}
 	x.Check("converge:returns-found", f.Pos(), n >= 4, "", "unexpected shape")
+	// what the allocator remembers about this Service is asked only once the recorded addresses were re-adopted (or there
+	// are none, or an allocation was made): right after a restart it remembers nothing, and a test such as "the owning
+	// pool differs from the requested one" would hold for every Service that requests a pool
+	if lbIPs != nil {
+		isQuery := func(n ast.Node) bool {
+			return f.ContainsPat("RECV.ips.Pool(K)", chk.H("K", key))(n) || f.ContainsPat("RECV.ips.IPs(K)", chk.H("K", key))(n) || f.ContainsPat("RECV.ips.AllocationKey(K)", chk.H("K", key))(n)
+		}
+		allocates := func(n ast.Node) bool {
+			return f.ContainsPat("RECV.allocateIPs(ETC)")(n) || f.ContainsPat("RECV.ips.Allocate(ETC)")(n) || f.ContainsPat("RECV.ips.AllocateFromPool(ETC)")(n)
+		}
+		tr, rf := g.EmptinessTracker(f.IsObj(lbIPs))
+		w := (&chk.StateWalk{G: g, Init: chk.EmpUnknown, Transfer: tr, Refine: rf,
+			Stop: func(n ast.Node, _ int) bool { return isAssign(n) || allocates(n) },
+			Hit:  func(n ast.Node, st int) bool { return st != chk.EmpEmpty && isQuery(n) && !isAssign(n) }}).Run()
+		x.Check("converge:allocator-asked-after-readoption", posOf(w, f), !w.Found, "", "the allocator is asked about this Service (Pool / IPs / AllocationKey) while its status records addresses that were not re-adopted yet: after a restart the answer is empty, and a decision taken on it (a different pool requested, say) clears addresses the Service rightfully holds")
+	}
 }
 
 // nodeNetworkRule (shared by C04, C10, C12): a node counts as network-unavailable only when a condition of type
